@@ -526,3 +526,94 @@ pub fn in_subtree(p: &str, t: &str) -> bool {
 pub fn child_name(p: &str) -> &str {
     name_of(p)
 }
+
+/// Differential comparison of two snapshots of filesystems that ran the same script (C02, C15, C18).
+/// `with_types`: compare observer outcomes path by path; names of the two sides appear in the diff text.
+pub fn diff_snaps(a: &Snap, b: &Snap) -> Vec<Diff> {
+    let mut d = vec![];
+    let mut paths: BTreeSet<&String> = a.obs.keys().collect();
+    paths.extend(b.obs.keys());
+    fn cls<T>(r: &Result<T, ErrInfo>) -> &'static str {
+        if r.is_ok() {
+            "Ok"
+        } else {
+            "Err"
+        }
+    }
+    for p in paths {
+        let (oa, ob) = match (a.obs.get(p.as_str()), b.obs.get(p.as_str())) {
+            (Some(x), Some(y)) => (x, y),
+            (x, _) => {
+                d.push(Diff { path: p.clone(), observer: "discovered", expected: if x.is_some() { "probed" } else { "-" }.into(), got: if x.is_some() { "-" } else { "probed" }.into() });
+                continue;
+            }
+        };
+        let mut push = |observer: &'static str, expected: String, got: String| d.push(Diff { path: p.clone(), observer, expected, got });
+        if oa.exists.as_ref().ok() != ob.exists.as_ref().ok() {
+            push("exists", show(&oa.exists), show(&ob.exists));
+        }
+        match (&oa.meta, &ob.meta) {
+            (Ok(x), Ok(y)) => {
+                if (x.dir, x.len) != (y.dir, y.len) {
+                    push("metadata", format!("{:?}", (x.dir, x.len)), format!("{:?}", (y.dir, y.len)));
+                }
+            }
+            (x, y) => {
+                if x.is_ok() != y.is_ok() {
+                    push("metadata", cls(x).into(), cls(y).into());
+                }
+            }
+        }
+        match (&oa.list, &ob.list) {
+            (Ok(x), Ok(y)) => {
+                let mut x = x.clone();
+                let mut y = y.clone();
+                x.sort();
+                y.sort();
+                if x != y {
+                    push("read_dir", format!("{:?}", x), format!("{:?}", y));
+                }
+            }
+            (x, y) => {
+                if x.is_ok() != y.is_ok() {
+                    push("read_dir", cls(x).into(), cls(y).into());
+                }
+            }
+        }
+        match (&oa.read, &ob.read) {
+            (Ok(x), Ok(y)) => {
+                if x != y {
+                    push("open_read", crate::json::bytes_repr(x), crate::json::bytes_repr(y));
+                }
+            }
+            (x, y) => {
+                if x.is_ok() != y.is_ok() {
+                    push("open_read", cls(x).into(), cls(y).into());
+                }
+            }
+        }
+        if oa.is_file.as_ref().ok() != ob.is_file.as_ref().ok() {
+            push("is_file", show(&oa.is_file), show(&ob.is_file));
+        }
+        if oa.is_dir.as_ref().ok() != ob.is_dir.as_ref().ok() {
+            push("is_dir", show(&oa.is_dir), show(&ob.is_dir));
+        }
+    }
+    let ws = |s: &Snap| -> Result<BTreeSet<String>, ()> {
+        match &s.walk {
+            Ok(items) => {
+                if items.iter().any(|x| x.is_err()) {
+                    Err(())
+                } else {
+                    Ok(items.iter().filter_map(|x| x.as_ref().ok().cloned()).collect())
+                }
+            }
+            Err(_) => Err(()),
+        }
+    };
+    let (wa, wb) = (ws(a), ws(b));
+    if wa != wb {
+        d.push(Diff { path: String::new(), observer: "walk_dir", expected: format!("{:?}", wa), got: format!("{:?}", wb) });
+    }
+    d
+}
